@@ -136,6 +136,80 @@ fn eval_res(st: &State, op: &ResOperand) -> Res {
     }
 }
 
+const M31: u64 = (1 << 31) - 1;
+
+/// Unpacks a felt holding a QM31 element: four coordinates of 36 bits each, every one below the
+/// Mersenne prime 2^31 - 1, nothing above bit 144.
+pub fn qm31_unpack(x: &BigInt) -> Option<[u64; 4]> {
+    if x.is_negative() || x.bits() > 144 {
+        return None;
+    }
+    let mask = (BigInt::from(1) << 36) - 1;
+    let mut c = [0u64; 4];
+    for (k, ck) in c.iter_mut().enumerate() {
+        *ck = ((x >> (36 * k)) & &mask).to_u64()?;
+        if *ck >= M31 {
+            return None;
+        }
+    }
+    Some(c)
+}
+
+pub fn qm31_pack(c: &[u64; 4]) -> BigInt {
+    let mut r = BigInt::from(0);
+    for (k, ck) in c.iter().enumerate() {
+        r += BigInt::from(*ck) << (36 * k);
+    }
+    r
+}
+
+/// (a + bi) * (c + di) in CM31 = F_p[i] / (i^2 + 1).
+fn cm31_mul(x: (u64, u64), y: (u64, u64)) -> (u64, u64) {
+    let re = (x.0 * y.0 % M31 + M31 - x.1 * y.1 % M31) % M31;
+    let im = (x.0 * y.1 % M31 + x.1 * y.0 % M31) % M31;
+    (re, im)
+}
+
+/// QM31 = CM31[u] / (u^2 - 2 - i); an element is (c0 + c1 i) + (c2 + c3 i) u.
+pub fn qm31_op(op: &Operation, x: &[u64; 4], y: &[u64; 4]) -> [u64; 4] {
+    match op {
+        Operation::Add => [(x[0] + y[0]) % M31, (x[1] + y[1]) % M31, (x[2] + y[2]) % M31, (x[3] + y[3]) % M31],
+        Operation::Mul => {
+            let (a, b) = ((x[0], x[1]), (x[2], x[3]));
+            let (c, d) = ((y[0], y[1]), (y[2], y[3]));
+            let ac = cm31_mul(a, c);
+            let bd = cm31_mul(b, d);
+            let bd_r = cm31_mul(bd, (2, 1));
+            let ad = cm31_mul(a, d);
+            let bc = cm31_mul(b, c);
+            [(ac.0 + bd_r.0) % M31, (ac.1 + bd_r.1) % M31, (ad.0 + bc.0) % M31, (ad.1 + bc.1) % M31]
+        }
+    }
+}
+
+/// The right-hand side of a `{QM31}` assert: both operands known packed elements.
+fn eval_qm31(st: &State, bin: &BinOpOperand) -> Res {
+    let Some(aa) = addr(st, &bin.a) else { return Res::Fail("negative address".into()) };
+    let av = st.mem.get(&aa).cloned();
+    let bv = match &bin.b {
+        DerefOrImmediate::Immediate(v) => Some(V::F(norm(&v.value))),
+        DerefOrImmediate::Deref(c) => {
+            let Some(ba) = addr(st, c) else { return Res::Fail("negative address".into()) };
+            st.mem.get(&ba).cloned()
+        }
+    };
+    let (Some(av), Some(bv)) = (av, bv) else {
+        return Res::Unmodelled("binop with an unknown operand".into());
+    };
+    match (av, bv) {
+        (V::F(x), V::F(y)) => match (qm31_unpack(&x), qm31_unpack(&y)) {
+            (Some(x), Some(y)) => Res::Val(V::F(qm31_pack(&qm31_op(&bin.op, &x, &y)))),
+            _ => Res::Fail("operand is not a packed QM31 element".into()),
+        },
+        _ => Res::Fail("pointer in a QM31 operation".into()),
+    }
+}
+
 fn eval_doi(st: &State, t: &DerefOrImmediate) -> Res {
     match t {
         DerefOrImmediate::Immediate(v) => Res::Val(V::F(norm(&v.value))),
@@ -149,10 +223,20 @@ pub fn reference_step(ins: &Instruction, st: &State) -> Expect {
     let next_pc = (0isize, st.pc + size);
     let inc = if ins.inc_ap { 1 } else { 0 };
     match &ins.body {
-        InstructionBody::AssertEq(AssertEqInstruction { a, b }) => {
+        InstructionBody::AssertEq(AssertEqInstruction { a, b }) | InstructionBody::QM31AssertEq(AssertEqInstruction { a, b }) => {
             let Some(da) = addr(st, a) else { return Expect::Fail("negative address".into()) };
             let dst = st.mem.get(&da).cloned();
-            match eval_res(st, b) {
+            let res = if matches!(ins.body, InstructionBody::QM31AssertEq(_)) {
+                match b {
+                    ResOperand::BinOp(bin) => eval_qm31(st, bin),
+                    // Without an operation the extension has nothing to act on; the toolchain
+                    // emits the QM31 form for additions and multiplications only.
+                    _ => return Expect::Unmodelled("QM31 extension without an operation".into()),
+                }
+            } else {
+                eval_res(st, b)
+            };
+            match res {
                 Res::Fail(e) => Expect::Fail(e),
                 Res::Unmodelled(e) => Expect::Unmodelled(e),
                 Res::Val(v) => match dst {
@@ -265,7 +349,6 @@ pub fn reference_step(ins: &Instruction, st: &State) -> Expect {
                 (_, V::F(_)) => Expect::Fail("return to a felt".into()),
             }
         }
-        InstructionBody::QM31AssertEq(_) => Expect::Unmodelled("opcode extension".into()),
         InstructionBody::Blake2sCompress(i) => {
             // blake2s[state, message, byte_count, finalize] => [ap]; ap++ is part of the instruction.
             let u32_at = |a: (isize, usize)| -> Result<u32, String> {
@@ -593,6 +676,30 @@ pub fn shapes() -> Vec<(String, Box<dyn Fn(&mut Rng) -> Instruction + Send + Syn
         }
     }
     out.push(("ret".into(), Box::new(|_| Instruction::new(InstructionBody::Ret(RetInstruction {}), false))));
+    // {QM31} dst = a op b: every register combination, b a cell or an immediate.
+    for dr in 0..2 {
+        for oi in 0..2usize {
+            for ar in 0..2 {
+                for br in 0..3 {
+                    for inc in [false, true] {
+                        out.push((
+                            format!("qm31 dst-{} {}-{}-{}{}", regs[dr], ["add", "mul"][oi], regs[ar], if br == 2 { "imm".to_string() } else { format!("deref-{}", regs[br]) }, if inc { " ap++" } else { "" }),
+                            Box::new(move |g| {
+                                let b = if br == 2 { DerefOrImmediate::Immediate(random_qm31(g).into()) } else { DerefOrImmediate::Deref(cell(br, g)) };
+                                Instruction::new(
+                                    InstructionBody::QM31AssertEq(AssertEqInstruction {
+                                        a: cell(dr, g),
+                                        b: ResOperand::BinOp(BinOpOperand { op: if oi == 0 { Operation::Add } else { Operation::Mul }, a: cell(ar, g), b }),
+                                    }),
+                                    inc,
+                                )
+                            }),
+                        ));
+                    }
+                }
+            }
+        }
+    }
     // blake2s: every register combination of the three operands, with and without finalize
     // (ap++ is mandatory for this instruction).
     for rs in 0..2 {
@@ -668,6 +775,28 @@ fn touched_cells(ins: &Instruction, st: &State) -> Vec<(isize, usize)> {
             add(&i.state);
             add(&i.message);
         }
+    }
+    v
+}
+
+/// A packed QM31 element (rarely an invalid packing: a coordinate equal to the prime, or bits
+/// above the fourth coordinate).
+fn random_qm31(rng: &mut Rng) -> BigInt {
+    let mut c = [0u64; 4];
+    for ck in c.iter_mut() {
+        *ck = match rng.below(6) {
+            0 => 0,
+            1 => 1,
+            2 => M31 - 1,
+            _ => rng.next_u64() % M31,
+        };
+    }
+    let mut v = qm31_pack(&c);
+    match rng.below(40) {
+        0 => v += BigInt::from(M31 - c[rng.below(4)]) << 0,
+        1 => v += BigInt::from(1) << 144,
+        2 => v = qm31_pack(&[M31, c[1], c[2], c[3]]),
+        _ => {}
     }
     v
 }
@@ -775,6 +904,24 @@ pub fn random_state(ins: &Instruction, rng: &mut Rng) -> State {
             st.mem.insert((EXEC, st.fp - 1), V::P(0, 50_000 + rng.below(3000)));
         } else if rng.bool() {
             st.mem.insert((EXEC, st.fp - 1), random_value(rng, 5));
+        }
+    }
+    if let InstructionBody::QM31AssertEq(i) = &ins.body {
+        // Operand cells hold packed elements most of the time.
+        for c in touched_cells(ins, &st) {
+            if frame.contains(&c) || !st.mem.contains_key(&c) {
+                continue;
+            }
+            if rng.chance(9, 10) {
+                st.mem.insert(c, V::F(random_qm31(rng)));
+            }
+        }
+        if let (Some(da), ResOperand::BinOp(bin)) = (addr(&st, &i.a), &i.b) {
+            if let Res::Val(v) = eval_qm31(&st, bin) {
+                if st.mem.contains_key(&da) && rng.bool() && !touched_cells(ins, &st)[1..].contains(&da) {
+                    st.mem.insert(da, v);
+                }
+            }
         }
     }
     if let InstructionBody::Blake2sCompress(i) = &ins.body {
@@ -959,6 +1106,9 @@ pub fn c16_worker(ctx: &mut Ctx) {
                         compared += 1;
                         if matches!(ins.body, InstructionBody::Blake2sCompress(_)) {
                             ctx.count(if matches!(reference_step(&ins, &st), Expect::Ok { .. }) { "blake2s.steps_succeeding" } else { "blake2s.steps_failing" }, 1);
+                        }
+                        if matches!(ins.body, InstructionBody::QM31AssertEq(_)) {
+                            ctx.count(if matches!(reference_step(&ins, &st), Expect::Ok { .. }) { "qm31.steps_succeeding" } else { "qm31.steps_failing" }, 1);
                         }
                     }
                     Ok(Ok(false)) => ctx.count("states_unmodelled", 1),
